@@ -2,6 +2,7 @@ import ModbusModel.Lemmas.Encode
 import ModbusModel.Lemmas.Tcp
 import ModbusModel.Lemmas.Effects
 import ModbusModel.Model.Server
+import ModbusModel.Lemmas.Independent
 /-
   C09 – Oversized PDUs are refused before sending; PDUs up to 253 bytes go out intact.
 -/
@@ -69,6 +70,25 @@ theorem oversize_refused (c : Client) (f : ClientFramed) (req : Request) (t : Tr
   unfold Client.call
   cases hk : c.kind <;>
     simp [hb, hf, hw, hk, awaitReady, BACKPRESSURE_BOUNDARY, clientEncode, tcpEncodeRequest, rtuEncodeRequest, hs]
+
+/-- **oversize_leaves_client_usable**: the refused call leaves no trace but a transaction id that
+    may have been used up: the next call – any request, any transport behaviour, any poll budget –
+    returns what it returns on the client as it was before the refused call (with the id the
+    refused call left), writes the same bytes and leaves the transport in the same state -/
+theorem oversize_leaves_client_usable (c : Client) (f : ClientFramed) (big req : Request)
+    (t t2 : Transport) (b b2 : Budget)
+    (hb : b ≠ some 0) (hf : c.framed = some f) (hw : f.wbuf = [])
+    (he : f.read.hasErrored = false) (hq : f.read.eof = false)
+    (h : (encodeRequestPdu big).length > 253) :
+    let c' := (c.call big t b).2.1
+    let ref : Client := { c with nextTid := c'.nextTid }
+    (c'.call req t2 b2).1 = (ref.call req t2 b2).1
+    ∧ (c'.call req t2 b2).2.2 = (ref.call req t2 b2).2.2 := by
+  intro c' ref
+  have hr := (oversize_refused c f big t b hb hf hw h).2.2.2
+  have hfr := call_frame c big t b hb
+  exact call_independent_of_past c' ref { f with read := { f.read with buffer := [] } } f req t2 b2
+    hr hf hfr.2.1 hfr.2.2 rfl rfl he he hq hq
 
 /-- **fields_intact** (TCP requests): what is transmitted for a request within the limit is the
     MBAP frame of the full encoding, and none of the length casts truncates -/
